@@ -166,7 +166,7 @@ fn build_col(ty: &str, vs: &[&str]) -> ArrayRef {
         return Arc::new(MapArray::new(Arc::new(Field::new("entries", DataType::Struct(fields), false)), OffsetBuffer::from_lengths(lens), entries, nulls, false));
     }
     if let Some(inner) = ty.strip_prefix("st(").and_then(|x| x.strip_suffix(')')) {
-        // value `S` + one item per child joined by `.`
+        // value `S` + one item per child joined by `+`
         let tys: Vec<&str> = inner.split('/').collect();
         let mut per: Vec<Vec<String>> = vec![vec![]; tys.len()];
         let mut valid = vec![];
@@ -178,7 +178,7 @@ fn build_col(ty: &str, vs: &[&str]) -> ArrayRef {
                 }
             } else {
                 valid.push(true);
-                for (j, x) in v[1..].split('.').enumerate() {
+                for (j, x) in v[1..].split('+').enumerate() {
                     per[j].push(x.to_string());
                 }
             }
@@ -263,6 +263,7 @@ fn run_case(line: &str, sink: &mut Sink, tags: &str) -> String {
     assert_eq!(t[0], "C17");
     let mut oracle: Vec<String> = vec![];
     let mut finding = String::new();
+    let mut rejected = false;
     let ans = guarded(|| match t[1] {
         "csv" => {
             let d: u8 = t[2].parse().unwrap();
@@ -352,7 +353,9 @@ fn run_case(line: &str, sink: &mut Sink, tags: &str) -> String {
                 w.write(&batch).and_then(|_| w.finish())
             };
             if res.is_err() {
-                return "ERR:write".into();
+                // not a batch the writer accepts: outside the property's domain
+                rejected = true;
+                return format!("rows={n}");
             }
             // independent parser accepts the text
             let ok_serde = if array_fmt { serde_json::from_slice::<serde_json::Value>(&out).is_ok() || n == 0 } else { out.split(|b| *b == b'\n').filter(|l| !l.is_empty()).all(|l| serde_json::from_slice::<serde_json::Value>(l).is_ok()) };
@@ -382,7 +385,8 @@ fn run_case(line: &str, sink: &mut Sink, tags: &str) -> String {
             {
                 let mut w = arrow_csv::WriterBuilder::new().with_header(header).with_delimiter(d).with_null(NULL_SENTINEL.to_string()).build(&mut out);
                 if w.write(&batch).is_err() {
-                    return "ERR:write".into();
+                    rejected = true;
+                    return format!("rows={n}");
                 }
             }
             let r = arrow_csv::ReaderBuilder::new(batch.schema()).with_header(header).with_delimiter(d).with_null_regex(never_null()).with_batch_size(4).build(Cursor::new(out.clone()));
@@ -401,6 +405,9 @@ fn run_case(line: &str, sink: &mut Sink, tags: &str) -> String {
         }
         _ => "bad-op".into(),
     });
+    if rejected {
+        sink.count(&format!("writer-rejects:{}", t[1]));
+    }
     for o in oracle {
         sink.oracle_failure(line.to_string(), o, &format!("{}{}", tags, finding));
     }
@@ -422,7 +429,9 @@ fn gen_flat_value(rng: &mut Rng, ty: &str, json: bool) -> String {
         "bool" => rng.below(2).to_string(),
         "i8" => i(rng, i8::MIN as i64, i8::MAX as i64),
         "i16" => i(rng, i16::MIN as i64, i16::MAX as i64),
-        "i32" | "d32" => i(rng, i32::MIN as i64, i32::MAX as i64),
+        "i32" => i(rng, i32::MIN as i64, i32::MAX as i64),
+        // dates / timestamps inside 0001-01-02 ..= 9999-12-30 (what both the formatter and the parser cover)
+        "d32" => i(rng, -719161, 2932895),
         "i64" => i(rng, i64::MIN, i64::MAX),
         "u8" => i(rng, 0, u8::MAX as i64),
         "u16" => i(rng, 0, u16::MAX as i64),
@@ -439,14 +448,14 @@ fn gen_flat_value(rng: &mut Rng, ty: &str, json: bool) -> String {
             if !f.is_finite() && json { "3ff0000000000000".into() } else { format!("{:016x}", if f.is_nan() { 0x7ff8_0000_0000_0000 } else { b }) }
         }
         "utf8" | "lutf8" => hex_or_empty(gen_text(rng, 6).as_bytes(), "~"),
-        "d64" => (rng.range(-50000, 50000) * 86_400_000).to_string(),
+        "d64" => (rng.pick_or(&[-719161, 2932895, 0, -1, 1], -719161, 2932895) * 86_400_000).to_string(),
         "t32s" => rng.range(0, 86399).to_string(),
         "t32m" => rng.range(0, 86_399_999).to_string(),
         "t64u" => rng.range(0, 86_399_999_999).to_string(),
         "t64n" => rng.range(0, 86_399_999_999_999).to_string(),
-        "tss" | "tzs" => rng.pick_or(&[0, -1, 1, 253402300799, -62135596800], -62135596800, 253402300799).to_string(),
-        "tsm" | "tzm" => rng.pick_or(&[0, -1, 1, 999, -999, 253402300799999], -62135596800000, 253402300799999).to_string(),
-        "tsu" | "tzu" => rng.pick_or(&[0, -1, 1, 999999, -999999], -62135596800000000, 253402300799999999).to_string(),
+        "tss" | "tzs" => rng.pick_or(&[0, -1, 1, 253402128000, -62135510400], -62135510400, 253402128000).to_string(),
+        "tsm" | "tzm" => rng.pick_or(&[0, -1, 1, 999, -999, 253402128000999, -62135510400000], -62135510400000, 253402128000999).to_string(),
+        "tsu" | "tzu" => rng.pick_or(&[0, -1, 1, 999999, -999999, 253402128000999999, -62135510400000000], -62135510400000000, 253402128000999999).to_string(),
         "tsn" | "tzn" => rng.pick_or(&[0, -1, 1, 999999999, -999999999, i64::MAX, i64::MIN + 1], -9_000_000_000_000_000_000, 9_000_000_000_000_000_000).to_string(),
         t if t.starts_with("dec(") => {
             let p: u32 = t[4..].split('.').next().unwrap().parse().unwrap();
@@ -470,7 +479,7 @@ fn gen_value(rng: &mut Rng, ty: &str, json: bool, nullable: bool) -> String {
         return format!("M{}", (0..n).map(|j| format!("{}.{}", hex(format!("k{j}{}", gen_text(rng, 2)).as_bytes()), gen_value(rng, inner, json, true))).collect::<Vec<_>>().join("."));
     }
     if let Some(inner) = ty.strip_prefix("st(").and_then(|x| x.strip_suffix(')')) {
-        return format!("S{}", inner.split('/').map(|t| gen_value(rng, t, json, true)).collect::<Vec<_>>().join("."));
+        return format!("S{}", inner.split('/').map(|t| gen_value(rng, t, json, true)).collect::<Vec<_>>().join("+"));
     }
     gen_flat_value(rng, ty, json)
 }
@@ -480,7 +489,10 @@ fn gen_rt(rng: &mut Rng, json: bool) -> (String, String) {
     let n = *rng.pick(&[0usize, 1, 2, 3, 7]);
     let mut tys: Vec<String> = vec![];
     for _ in 0..ncols {
-        let base = rng.pick(&FLAT).to_string();
+        let mut base = rng.pick(&FLAT).to_string();
+        if !json && base == "lutf8" {
+            base = "utf8".into(); // the CSV reader has no LargeUtf8 decoder
+        }
         let t = if json {
             match rng.below(8) {
                 0 => format!("list({base})"),
